@@ -907,9 +907,12 @@ def binary_e_fn(
 ) -> Union[int, float]:
     if isinstance(x, int) and isinstance(y, int):
         if y >= 0:
-            for i in range(y):
-                x = x * 10
-            return x
+            if y > 400:
+                # beyond float range anyway; math.pow reports the overflow
+                return x * math.pow(10, y)
+            return x * 10**y
+        if x == 0:
+            return 0
         while y < 0:
             if x % 10 == 0:
                 x = x // 10
